@@ -153,10 +153,6 @@ func genHard(t *rapid.T) histCase {
 	return c
 }
 
-const (
-	knownMasterDown = "C27-F1"
-)
-
 func labelSet(o *pbt.Outcome) func(string) {
 	seen := map[string]bool{}
 	return func(l string) {
@@ -198,14 +194,7 @@ func checkHard(c histCase) (o pbt.Outcome) {
 		}
 		switch {
 		case st.FusedDown && !st.GateHolds && st.After:
-			detail := "hard policy, cool-down " + fmt.Sprint(c.Cfg.Cooldown) + "s: replica marked up before the cool-down since its latest fuse was over: " + st.String()
-			if st.Master != "up" {
-				// root cause: the master-not-up branch of checkWithHardRecovery marks a down replica up unconditionally
-				o.Known, o.KnownWhat = knownMasterDown, detail
-				label("known:" + st.Cat)
-				continue
-			}
-			o.Violation = detail
+			o.Violation = "hard policy, cool-down " + fmt.Sprint(c.Cfg.Cooldown) + "s: replica marked up before the cool-down since its latest fuse was over: " + st.String()
 			return
 		case st.Cat == "hard_recover" && !st.After:
 			o.Violation = "hard policy: cool-down over, probe passed, master up, replication healthy, yet the replica stays down: " + st.String()
